@@ -14,6 +14,7 @@ import (
 	"reflect"
 	"sort"
 	"strings"
+	"unicode"
 
 	"gopkg.in/yaml.v3"
 )
@@ -83,9 +84,19 @@ func genString0(r *rand.Rand) string {
 			case c < 8:
 				sb.WriteRune(rune(0x20 + r.Intn(0x5f)))
 			case c < 10:
-				sb.WriteRune(rune(0xa0 + r.Intn(0x2000)))
+				// printable only: the statement's domain excludes format and separator
+				// characters such as U+00AD, U+200B, U+2028, U+2029
+				ch := rune(0xa0 + r.Intn(0x2000))
+				for !unicode.IsPrint(ch) {
+					ch = rune(0xa0 + r.Intn(0x2000))
+				}
+				sb.WriteRune(ch)
 			default:
-				sb.WriteRune(rune(0x1f300 + r.Intn(0x200)))
+				ch := rune(0x1f300 + r.Intn(0x200))
+				for !unicode.IsPrint(ch) {
+					ch = rune(0x1f300 + r.Intn(0x200))
+				}
+				sb.WriteRune(ch)
 			}
 		}
 		return sb.String()
